@@ -879,7 +879,9 @@ def scen_detect(ctx, M):
         allowed = Subset()
     rsize = p.get('read', 4096)
     if rsize == 'sym':
-        rsize = ctx.int('rsize', 1, 65536)
+        # >= 512: the text scan of the VMDK inspector makes every shorter
+        # first read its own path (and needs a known header length)
+        rsize = ctx.int('rsize', 512, 65536)
         # at most `max_sym_reads` non-empty reads (each read position forks
         # against every region boundary)
         ctx.assume(rsize * p.get('max_sym_reads', 4) >= N)
